@@ -127,7 +127,7 @@ class Ref:
         return r
 
 
-ARITY = {"put": 4, "find": 2, "findmv": 2, "remove": 2, "clear": 1, "mvend": 2, "uselru": 1, "getmru": 1}
+ARITY = {"put": 4, "find": 2, "findmv": 2, "remove": 2, "clear": 1, "mvend": 2, "uselru": 1, "getmru": 1, "destroy": 1}
 
 
 def valid_op(kind, t):
@@ -163,6 +163,15 @@ def oracle(case, lines):
             if len(t) != 6 or t[1] not in KINDS or int(t[2]) < 1:
                 return errs
             ref = Ref(t[1], int(t[2]), t[3] == "1", t[4] == "1")
+            continue
+        if ref is not None and t == ["destroy"]:
+            # clean_up / aws_cache_destroy: every remaining key and value destroyed exactly once, nothing left allocated
+            r = ref.apply(["clear"])
+            exp = ["P destroy", "P dtor " + (" ".join(sorted(r["dtor"])) or "-"), "P leak=0"]
+            got = [nxt(), nxt(), nxt()]
+            if got != exp:
+                errs.append(f"c18_destructors: destroy (clean_up): got {got} expected {exp}")
+            ref = None
             continue
         if ref is None or not valid_op(ref.kind, t):
             if nxt() != "bad-op":
@@ -298,6 +307,8 @@ def gen_case(rng, maxops):
             other(rng.choice([f"findmv {pick(1)}", f"mvend {pick(1)}"]))
         else:
             put(pick())
+    if rng.random() < 0.4:
+        ops.append("destroy")      # tear the table down with whatever it still holds
     return Case(ops, tags)
 
 
@@ -323,7 +334,7 @@ def exhaustive_cases(kind, cap, depth, kd=1, vd=1, hm=0, nulls=False):
 
     def rec(ops, used, d):
         if d == 0:
-            out.append(Case([init] + ops, {"kind": kind, "cap": cap, "exhaustive": depth, "nulls": nulls}))
+            out.append(Case([init] + ops + ["destroy"], {"kind": kind, "cap": cap, "exhaustive": depth, "nulls": nulls}))
             return
         pos = len(ops)
         for name in unary:
